@@ -381,7 +381,7 @@ fn runs(thorough: bool) -> (Vec<Run>, Value) {
         for of in 0..5u8 {
             for sym in [false, true] {
                 // quick: rotate instead of the full product for the cheap dimensions
-                if !thorough && (of as usize + gi) % 2 == 1 && sym {
+                if (!thorough || gi % 2 == 0) && (of as usize + gi) % 2 == 1 && sym {
                     continue;
                 }
                 out.push(Run { names: g.clone(), compress, form: "whole".into(), outdir_form: of, symlink: sym, prefill: false, filelink: false });
